@@ -47,6 +47,9 @@ func Build(rule Rule) (WireFormat, error) {
 
 	switch v := rule.(type) {
 	case *SyscallRule:
+		if v == nil {
+			return nil, errors.New("rule is nil")
+		}
 		if err = data.setList(v.List); err != nil {
 			return nil, err
 		}
@@ -78,6 +81,9 @@ func Build(rule Rule) (WireFormat, error) {
 		}
 
 	case *FileWatchRule:
+		if v == nil {
+			return nil, errors.New("rule is nil")
+		}
 		if err = addFileWatch(data, v); err != nil {
 			return nil, err
 		}
